@@ -54,6 +54,8 @@ struct Config {
   bool plain_sched = false;      // C19: plain accesses to watched ranges are scheduling points
   bool tso = false;              // x86-TSO store buffers inside API calls (non-seq_cst atomic stores are delayed past later loads)
   int tso_drain_percent = 25;    // per scheduling point: probability that the memory system drains one buffered store
+  bool weak_stores = false;      // with tso: only release-class operations (and same-address accesses) drain the buffer, so a relaxed
+                                 // store may become visible after a later acquire/relaxed read-modify-write (ARM/POWER-like W->W reordering)
   // replay: explicit decision list (one chosen vthread per scheduling point)
   const uint8_t *replay_choices = nullptr;
   size_t replay_len = 0;
